@@ -153,6 +153,26 @@ F_spec = st.one_of(
     ),
     st.fixed_dictionaries({"k": st.just("raw"), "a": st.lists(st.floats(-3, 3), min_size=9, max_size=9)}),
     st.fixed_dictionaries({"k": st.just("shear"), "i": st.integers(0, 2), "j": st.integers(0, 2), "g": st.floats(-20, 20)}),
+    # infinitesimal strain: F = R.V.diag(1 + 10^u d).V^T and I + 10^u e_i (x) e_j
+    st.fixed_dictionaries(
+        {
+            "k": st.just("inf"),
+            "R": gen.rotation_spec(),
+            "V": gen.rotation_spec(),
+            "d": st.lists(st.floats(-1.0, 1.0).map(lambda v: round(v, 6)), min_size=3, max_size=3),
+            "u": st.floats(-10.0, -2.0).map(lambda v: round(v, 3)),
+            "rigid": st.booleans(),
+        }
+    ),
+    st.fixed_dictionaries(
+        {
+            "k": st.just("tinyshear"),
+            "i": st.integers(0, 2),
+            "j": st.integers(0, 2),
+            "u": st.floats(-10.0, -2.0).map(lambda v: round(v, 3)),
+            "sgn": st.sampled_from([-1.0, 1.0]),
+        }
+    ),
 )
 
 
@@ -162,9 +182,13 @@ def F_from(spec):
         return gen.rot(spec["R"]) @ (V @ np.diag(10.0 ** np.asarray(spec["e"])) @ V.T)
     if spec["k"] == "raw":
         return np.asarray(spec["a"], dtype=float).reshape(3, 3)
+    if spec["k"] == "inf":
+        V = gen.rot(spec["V"])
+        S = V @ np.diag(1.0 + 10.0 ** spec["u"] * np.asarray(spec["d"])) @ V.T
+        return gen.rot(spec["R"]) @ S if spec["rigid"] else S
     F = np.eye(3)
     if spec["i"] != spec["j"]:
-        F[spec["i"], spec["j"]] = spec["g"]
+        F[spec["i"], spec["j"]] = spec["g"] if spec["k"] == "shear" else spec["sgn"] * 10.0 ** spec["u"]
     return F
 
 
@@ -178,30 +202,34 @@ def check_finite_strain(case):
     s, ax = sut(D.finite_strain, F)
     require(np.array_equal(F, F_before), "finite_strain modified the deformation gradient")
     U, S, _ = np.linalg.svd(F)
+    # measured accuracy of the eigen-decomposition route: 2e-14 S0 for the stretch and
+    # 1.1e-15/sep for the axis (200000 random F, condition numbers up to 1e6, strains down
+    # to 1e-12); the bounds below leave a factor 50-100
     e0 = abs(s - (S[0] - 1)) / S[0]
-    require(np.isfinite(s) and e0 <= 1e-9, f"finite strain {s!r} != largest principal stretch - 1 = {S[0] - 1!r}", e0)
+    require(np.isfinite(s) and e0 <= 1e-12, f"finite strain {s!r} != largest principal stretch - 1 = {S[0] - 1!r}", e0)
     require(ax.shape == (3,) and abs(np.linalg.norm(ax) - 1) <= 1e-9, f"strain axis {ax} is not a unit vector")
     sep = (S[0] - S[1]) / S[0]
     labels = [case["F"]["k"]]
-    worst = e0
-    if sep > 1e-5:
-        tol = 1e-10 / sep**2 + 1e-9
+    worst = e0 * 1e3
+    if sep > 1e-10:
+        tol = 1e-13 / sep + 1e-12
+        labels.append("strain<1e-5" if S[0] - 1 < 1e-5 and S[2] > 1 - 1e-5 else "finite")
         e = min(np.abs(ax - U[:, 0]).max(), np.abs(ax + U[:, 0]).max())
         require(e <= tol, f"strain axis {ax} is not the long axis +-{U[:, 0]} of the strain ellipsoid", e)
         worst = max(worst, e)
         # prior rigid rotation F -> F.Q: unchanged
         s1, ax1 = sut(D.finite_strain, F @ Q)
-        require(abs(s1 - s) <= 1e-9 * S[0], f"finite strain changes under F -> F.Q: {s!r} -> {s1!r}")
+        require(abs(s1 - s) <= 1e-12 * S[0], f"finite strain changes under F -> F.Q: {s!r} -> {s1!r}")
         e = min(np.abs(ax1 - ax).max(), np.abs(ax1 + ax).max())
         require(e <= tol, f"strain axis changes under a prior rigid rotation F -> F.Q by {e:.3e}", e)
         # subsequent rotation F -> Q.F: co-rotates
         s2, ax2 = sut(D.finite_strain, Q @ F)
-        require(abs(s2 - s) <= 1e-9 * S[0], f"finite strain changes under F -> Q.F: {s!r} -> {s2!r}")
+        require(abs(s2 - s) <= 1e-12 * S[0], f"finite strain changes under F -> Q.F: {s!r} -> {s2!r}")
         e = min(np.abs(ax2 - Q @ ax).max(), np.abs(ax2 + Q @ ax).max())
         require(e <= tol, f"strain axis does not co-rotate under F -> Q.F (|diff| = {e:.3e})", e)
         labels.append("axis_checked")
     return {
-        "nontrivial": bool(np.abs(F - F.T).max() > 1e-9 and sep > 1e-5 and gen.angle_from_axis24(Q) >= 5.0),
+        "nontrivial": bool(np.abs(F - F.T).max() > 1e-12 and sep > 1e-10 and gen.angle_from_axis24(Q) >= 5.0),
         "labels": labels,
         "residual": worst,
     }
@@ -211,28 +239,29 @@ def check_simple_shear_angle(case):
     """F = I + 2 eps e_j (x) e_i (velocity along j, gradient along i): the long axis lies in
     the i-j plane at angle_fse_simpleshear(eps) anticlockwise from the gradient axis i."""
     eps = case["eps"]
-    if eps < 1e-6:
+    if eps < 1e-9:
         raise Skip("no strain: ellipsoid is a sphere, axis undefined")
+    atol = 1e-6 + math.degrees(1e-13 / eps)  # axis conditioning ~ eps_machine / strain
     i, j = case["ij"]
     F = np.eye(3)
     F[j, i] = 2 * eps
     s, ax = sut(D.finite_strain, F)
     k = 3 - i - j
-    require(abs(ax[k]) <= 1e-9, f"strain axis of a simple shear leaves the shear plane: {ax}")
+    require(abs(ax[k]) <= 1e-9 + 1e-13 / eps, f"strain axis of a simple shear leaves the shear plane: {ax}")
     ang = math.degrees(math.atan2(ax[j], ax[i])) % 180.0
     ref = float(sut(_utils.angle_fse_simpleshear, eps)) % 180.0
     d = abs(ang - ref)
     d = min(d, 180 - d)
-    require(d <= 1e-6, f"finite-strain axis angle {ang:.9f} deg != closed-form helper {ref:.9f} deg for strain {eps}", d)
+    require(d <= atol, f"finite-strain axis angle {ang:.9f} deg != closed-form helper {ref:.9f} deg for strain {eps}", d)
     # closed form from first principles: tan(2 theta) = -2/gamma' ...  use SVD as a third opinion
     U = np.linalg.svd(F)[0][:, 0]
     ang2 = math.degrees(math.atan2(U[j], U[i])) % 180.0
     d2 = min(abs(ang2 - ref), 180 - abs(ang2 - ref))
-    require(d2 <= 1e-6, f"closed-form helper {ref:.9f} deg != SVD long-axis angle {ang2:.9f} deg for strain {eps}", d2)
+    require(d2 <= atol, f"closed-form helper {ref:.9f} deg != SVD long-axis angle {ang2:.9f} deg for strain {eps}", d2)
     # stretch: lambda_max = eps + sqrt(eps^2+1)
     lam = eps + math.sqrt(eps * eps + 1)
-    require(abs(s - (lam - 1)) <= 1e-9 * lam, f"finite strain {s!r} != eps+sqrt(eps^2+1)-1 = {lam - 1!r}")
-    return {"nontrivial": eps > 1e-3, "labels": [f"ij{i}{j}"], "residual": max(d, d2)}
+    require(abs(s - (lam - 1)) <= 1e-12 * lam, f"finite strain {s!r} != eps+sqrt(eps^2+1)-1 = {lam - 1!r}")
+    return {"nontrivial": eps > 1e-3, "labels": [f"ij{i}{j}", "eps<1e-5" if eps < 1e-5 else "eps>=1e-5"], "residual": max(d, d2) / atol}
 
 
 ORACLES = [
@@ -250,7 +279,7 @@ ORACLES = [
         "simple_shear_angle",
         st.fixed_dictionaries(
             {
-                "eps": st.one_of(st.floats(0.0, 10.0), st.floats(0.0, 1e-3), st.floats(10.0, 1e3)),
+                "eps": st.one_of(st.floats(0.0, 10.0), st.floats(0.0, 1e-3), st.floats(10.0, 1e3), st.floats(-9.0, -3.0).map(lambda u: 10.0 ** round(u, 3))),
                 "ij": st.sampled_from([(0, 1), (1, 0), (0, 2), (2, 0), (1, 2), (2, 1)]),
             }
         ),
